@@ -67,7 +67,8 @@ def request_bytes(r):
         cb = b"%x\r\n%s\r\n0\r\n\r\n" % (len(body), body)
         return ("POST %s HTTP/1.1\r\nHost: t\r\nX-K: %d\r\nTransfer-Encoding: chunked\r\n%s\r\n" % (path, k, extra)).encode(), cb
     if kind == "expect":
-        return ("POST %s HTTP/1.1\r\nHost: t\r\nX-K: %d\r\nExpect: 100-continue\r\nContent-Length: %d\r\n%s\r\n" % (path, k, len(body), extra)).encode(), body
+        # (the expectation is a case-insensitive token: r["expect_value"] spells it differently)
+        return ("POST %s HTTP/1.1\r\nHost: t\r\nX-K: %d\r\nExpect: %s\r\nContent-Length: %d\r\n%s\r\n" % (path, k, r.get("expect_value", "100-continue"), len(body), extra)).encode(), body
     if kind == "expect_nobody":
         return ("GET %s HTTP/1.1\r\nHost: t\r\nX-K: %d\r\nExpect: 100-continue\r\n%s\r\n" % (path, k, extra)).encode(), b""
     if kind == "expect10":
@@ -120,6 +121,12 @@ class AppIter:
             raise StopIteration
         c = self.chunks[self.i]
         self.i += 1
+        if c == "peer":
+            # the application waits until a request of another connection is being executed (two long-polling
+            # requests that need each other: both must get a worker)
+            if S is not None and S.cur is not None:
+                S.vo("app", "peer", enabled=lambda: any(e["k"] == "app_start" and e.get("c") != self.conn for e in self.ctx.events))
+            return b""
         if c == "sync":
             # the application pauses in mid-stream (long poll / event stream): it goes on only once the server
             # has pushed out everything it is obliged to push (less than send_bytes may be held back by design)
@@ -174,6 +181,11 @@ class Ctx:
                 def write_soon(self, data):
                     ctx.on_write_soon(self, data)
                     return HTTPChannel.write_soon(self, data)
+
+                def handle_close(self):
+                    # the teardown begins (observed for the classification of findings only)
+                    ctx.ev({"k": "closing", "c": self.__dict__.get("_wv_conn")})
+                    return HTTPChannel.handle_close(self)
 
             for n in scn.get("racy", RACY):
                 setattr(Chan, n, _mkprop(n, HTTPChannel))
@@ -271,10 +283,10 @@ class Ctx:
         if spec.get("raise") == "call":
             self.ev({"k": "app_end", "c": conn, "r": k})
             raise self.exc_class("app failure at call")
-        chunks = [n if n == "sync" else (b"%c" % (64 + max(k, 1))) * n for n in spec.get("chunks", [3])]
+        chunks = [n if n in ("sync", "peer") else (b"%c" % (64 + max(k, 1))) * n for n in spec.get("chunks", [3])]
         headers = [("X-Req", str(k)), ("Content-Type", "text/plain")]
         cl = spec.get("cl", "exact")
-        total = sum(len(c) for c in chunks if c != "sync")
+        total = sum(len(c) for c in chunks if c not in ("sync", "peer"))
         if cl == "exact":
             headers.append(("Content-Length", str(total)))
         elif cl == "larger":
@@ -450,8 +462,11 @@ def explore_scenario(args):
     n, exhausted = (0, True)
     budget = scn.get("budget", 6000)
     if dfs_limit:
-        # every schedule with at most one pre-emption (bounded by dfs_limit), systematically
-        n, exhausted = explore.dfs(build, bound=1, limit=dfs_limit, on_result=keep, budget=budget)
+        # schedules with at most one pre-emption, systematically: half of the budget from the start of the execution
+        # (depth-first, also the free choices at blocking points), half spread evenly over the whole execution
+        n, exhausted = explore.dfs(build, bound=1, limit=dfs_limit // 2, on_result=keep, budget=budget)
+        if not exhausted:
+            n += explore.spread(build, limit=dfs_limit - dfs_limit // 2, budget=budget, on_result=keep, seed=seed)
     base_len = max([len(c) for c, _ in out] or [300])
     for i in range(n_pct):
         if i % 3 == 2:
